@@ -74,9 +74,12 @@ static void run_one(const std::vector<uint8_t> &font, unsigned opts, int src) {
     if (g_shape) {
         static const uint32_t txt[] = {0x61, 0x62, 0x63, 0x20, 0x1000, 0x1031, 0x61, 0x62};
         if (g_texts.empty()) g_texts.push_back(std::vector<uint32_t>(txt, txt + 8));
+        bool any_font = false;
         for (size_t ti = 0; ti < g_texts.size(); ++ti) {
             ShapeParams sp; sp.enc = 4; sp.dir = int((g_salt + ti) & 1); sp.want_dump = false; sp.query_all = true;
-            if (((g_salt >> 1) + ti) % 5 == 0) sp.ppm = ((g_salt >> 5) & 1) ? -13.f : 14.f;
+            // a gr_font (scaled, or hinted = advance callbacks) for one text in three, and for at least one text of every corrupted font:
+            // some fields only matter once a font scales by them (seed S7-C03: head.unitsPerEm == 0 accepted => infinite scale)
+            if (((g_salt >> 1) + ti) % 3 == 0 || (ti + 1 == g_texts.size() && !any_font)) { sp.ppm = ((g_salt >> 5) & 1) ? -13.f : 14.f; any_font = true; }
             sp.text.assign(reinterpret_cast<const uint8_t *>(g_texts[ti].data()), reinterpret_cast<const uint8_t *>(g_texts[ti].data()) + g_texts[ti].size() * 4);
             ShapeResult r;
             alarm(30);
